@@ -5,6 +5,8 @@ CONSTANTS
   Swapped = FALSE
   KeepLen = FALSE
   SessShared = FALSE
+  DoubleRelease = FALSE
+  MaxJunk = 1
   Locals = {1, 2}
   MaxResend = 0
 INIT Init
